@@ -265,4 +265,36 @@ def r5_indent_flag_values(ctx):
                         ctx.ob("R5", "%s:write_indent=%s" % (sym.short(strip_generics(b.path)).split("::")[-1], key[:40]), ok, "write_indent is assigned a constant or allow_indent() of the last WriteResult, found %s" % sym.show(v, 2)[:80], loc=b.loc(e[4]), config=cfg)
         ctx.floor("R5", "assignments to write_indent", n, 5, config=cfg)
 
-RULES = [("R1", r1_writer), ("R2", r2_depth), ("R3", r3_serde), ("R4", r4_classification), ("R5", r5_indent_flag_values)]
+def r6_indent_guard(ctx):
+    """Indent::write_indent is the only thing in the serde serializer that writes newline + indent.  Every call of it
+    is governed by a `write_indent` flag (the typestate R4/R5 maintain: false after text): on the path to the call the
+    flag was read and found set.  Any other guard (the shape of what was written, a length, nothing at all) can put an
+    indent after text."""
+    for cfg, F in ctx.facts.items():
+        if "serialize" not in F.features:
+            ctx.ob("R6", "not-compiled", True, "serializer only with the `serialize` feature", config=cfg)
+            continue
+        n = 0
+        for b in F.bodies:
+            if not b.loc(b.j["span"]).startswith("src/se/") or is_derive(b) or "::tests" in b.path:
+                continue
+            if not any(name_is(callee_of(t)[0] or "", "Indent::write_indent") for _, t in b.calls()):
+                continue
+            fn = sym.short(strip_generics(b.path))
+            seen = set()
+            for p in ctx.paths(b):
+                for i, e in enumerate(p):
+                    if e[0] != "call" or isinstance(e[1], tuple) or not name_is(e[2], "Indent::write_indent"):
+                        continue
+                    flag = [x for x in p[:i] if x[0] == "switch" and x[2][0] == "pl" and ends_with_fields(x[2], "write_indent")]
+                    ok = bool(flag) and flag[-1][3] != 0
+                    key = (e[1], ok)
+                    if key in seen:
+                        continue
+                    seen.add(key)
+                    n += 1
+                    ctx.ob("R6", "%s:indent-call" % fn, ok, "newline + indent is written only where a write_indent flag was read and found set on the way", loc=b.loc(e[4]) if len(e) > 4 and isinstance(e[4], int) else None, config=cfg)
+        ctx.floor("R6", "calls of Indent::write_indent", n, 2, config=cfg)
+
+
+RULES = [("R1", r1_writer), ("R2", r2_depth), ("R3", r3_serde), ("R4", r4_classification), ("R5", r5_indent_flag_values), ("R6", r6_indent_guard)]
